@@ -156,11 +156,42 @@ def has_dsup_gap(fam) -> bool:
     return False
 
 
+def inherited_method_gap(fam, snap) -> bool:
+    """some class C was compiled on demand for a dialect only (its dialect cache of a format/direction is filled)
+    and has no own nested method of that format/direction, while an ancestor has one: the generated call
+    C.__mashumaro_<dir>_dict[_<fmt>]__ then resolves through the MRO to the ancestor's code"""
+    cl = fam["classes"]
+    for c in cl:
+        own = snap.get(c["name"])
+        if not own or c["parent"] is None:
+            continue
+        for cname, ds in own["c"].items():
+            if not ds:
+                continue
+            mm = re.match(r"^(\w+)_(packer|unpacker)$", cname)
+            if not mm:
+                continue
+            name = ("to" if mm.group(2) == "packer" else "from") + "_dict" + ("" if mm.group(1) == "dict" else "_" + mm.group(1))
+            if name in own["m"]:
+                continue
+            p = c["parent"]
+            while p is not None:
+                if name in snap.get(cl[p]["name"], {"m": {}})["m"]:
+                    return True
+                p = cl[p]["parent"]
+    return False
+
+
 def classify(fam, op, got, exp, got_aux, exp_aux, got_snap, exp_snap, src="") -> dict:
     """signature of a difference between the family under test (`got`) and the fresh eager twin (`exp`).
     kind is one of the known-finding kinds only when the precise predicate of that finding holds on the
     side that failed; otherwise 'history-dependence' (= a violation)."""
     sig = {"kind": "history-dependence", "got": got[1] if got[0] == "EXC" else "OK", "exp": exp[1] if exp[0] == "EXC" else "OK"}
+    for side, snap in (("family", got_snap), ("twin", exp_snap)):
+        if "dialect=" in op and fam["classes"] and inherited_method_gap(fam, snap):
+            # dialect call before the default compile, on a subclass whose parent already has the nested method:
+            # the parent's code runs on the subclass (TypeError for required fields, silently dropped fields otherwise)
+            return {**sig, "kind": "dialect-build-uses-inherited-parent-method", "side": side}
     for side, out, aux, snap in (("family", got, got_aux, got_snap), ("twin", exp, exp_aux, exp_snap)):
         other = exp if side == "family" else got
         if out[0] != "EXC" or out == other:
